@@ -355,7 +355,7 @@ def falsify(ctx):
         sweep = sweep[:350]
     for kind, m, o in sweep:
         for base_type in ("integer", "array"):
-            if kind == "msgspec.Struct" and "strict_nullable" in o and m["dflt"] == "none":
+            if kind == "msgspec.Struct" and "strict_nullable" in o and m["dflt"] in ("none", "val") and not m["required"]:
                 continue   # known finding C02-optional-import-msgspec
             ms = c05.member_schema(m)
             if base_type == "array":
